@@ -131,8 +131,9 @@ func main() {
 			c := &Check{ID: id, Tier: tier, W: w, Funcs: map[string]bool{}}
 			if lerr == nil {
 				runProp(c, f)
-				if tier == "thorough" && os.Getenv("MIXVET_REPO") == "" {
+				if tier == "thorough" && os.Getenv("MIXVET_REPO") == "" && os.Getenv("MIXVET_GOARCH") == "" {
 					c.variantsObligations()
+					c.archObligation()
 				}
 			}
 			if r := c.Finish(start, lerr); r > rc {
